@@ -220,8 +220,8 @@ func c03Classify(name, text, origin string) c03Case {
 }
 
 func runC03(c *Ctx) {
-	nValid := c.N(12000, 150000)
-	nMut := c.N(24000, 450000)
+	nValid := c.N(12000, 400000)
+	nMut := c.N(24000, 1200000)
 	root := NewRng(c.Seed).Fork(3)
 	var cases []c03Case
 	lineEnds := []string{"\n", "\r\n", "\r"}
